@@ -175,9 +175,7 @@ func c14Supported(c *Check, cases []xcase) {
 		cs := cases[i]
 		for _, f := range feats {
 			d := c14Detectors[f]
-			if !d.MatchString(cs.code) {
-				continue
-			}
+			inInput := d.MatchString(cs.code)
 			c.Eval(1)
 			// supported:false on esnext => no occurrence in the output (or an error)
 			deps := map[string]bool{f: false}
@@ -199,6 +197,9 @@ func c14Supported(c *Check, cases []xcase) {
 				deps["class-private-static-accessor"] = false
 			}
 			for _, minify := range []bool{false, true} {
+				if !inInput && !minify {
+					continue // without the minifier esbuild only removes syntax; with it, rewrites may introduce the feature
+				}
 				out, ok, _ := transformJS(cs.code, api.TransformOptions{Target: api.ESNext, Supported: deps, MinifySyntax: minify})
 				if ok && d.MatchString(out) {
 					c.Violation("supported-false:"+f+":"+cs.code, map[string]interface{}{"kind": "supported:{feature:false} but the output still uses the feature", "feature": f, "minify": minify, "input": cs.code, "output": out})
